@@ -154,3 +154,19 @@ def run(ctx: Ctx, rep: Report, tier: str):
     if k == 0:
         raise AnalysisError("no `return REQUEUE` found")
     rep.assume("C01's behavioural content (equal trees at quiescence, boundedness) is not decided by this check")
+    # --- conditions shared with neighbouring properties, reported here under C01's own ids
+    def alias(src_rule, dst_rule, text, expect, fn):
+        rep.rule(dst_rule, text, expect)
+        rep.rules[src_rule] = "alias"
+        fn()
+        for i in rep.instances:
+            if i.rule == src_rule:
+                i.rule = dst_rule
+        rep.rules.pop(src_rule, None)
+        rep.expect.pop(src_rule, None)
+    from rules.C15 import C15
+    from rules.C10 import C10
+    alias("C15.R2", "C01.R6", "picking the next change and syncing it, and applying one event, are single critical sections under the state lock (C15.R2): "
+          "an event applied in the middle of a sync step is wiped by the step's book-keeping and never propagated", 3, lambda: C15(ctx, rep).r2())
+    alias("C10.T7", "C01.R7", "a retry uploads the current content: the reusable temp-file name is a function of the side's current hash and path (C10.T7)", 2,
+          lambda: C10(ctx, rep).t7())
